@@ -292,5 +292,53 @@ func registerLib(e *Engine) {
 		s.ghost["exec_count"] = Val{T: intT, S: addT(cnt, "1")}
 		return []Val{cmd}
 	}
+	L["github.com/BurntSushi/toml.DecodeFile"] = func(s *State, site ssa.Instruction, args []Val) []Val {
+		s.used("toml.DecodeFile(path, &cfg): on return every field of cfg holds an arbitrary value of its Go type (that is the adversary); no other effect")
+		sig := site.(ssa.CallInstruction).Common().Signature()
+		// the target is the pointer boxed in args[1]
+		if mi, ok := site.(ssa.CallInstruction).Common().Args[1].(*ssa.MakeInterface); ok {
+			pv := s.valOf(mi.X)
+			if pt := derefType(pv.T); pt != nil && kindOf(pt) == kStruct && pv.S != "" {
+				s.havocObject(pv.S, pt)
+			}
+		} else {
+			s.havocAll("toml.DecodeFile target unknown")
+		}
+		md := s.freshVal(sig.Results().At(0).Type(), "tomlmeta")
+		errv, eid := s.newErr("toml")
+		_ = eid
+		isNil := s.c.freshConst("tomlok", sBool)
+		e := Val{T: errorT, S: s.define("tomlerr", sIface, ite(isNil, "nilI", errv.S))}
+		return []Val{md, e}
+	}
+	L["github.com/hashicorp/golang-lru/v2.New"] = func(s *State, site ssa.Instruction, args []Val) []Val {
+		s.used("lru.New(size): size > 0 gives (non-nil cache, nil); size <= 0 gives (nil, error)")
+		sig := site.(ssa.CallInstruction).Common().Signature()
+		s.oblige("lib-pre:lru.New", site, s.c.ordinal(site, "lib-pre:lru.New"), app(">", args[0].S, "0"), "lru.New: cache size must be positive (otherwise the cache is nil and the first fetch dereferences it)", false)
+		pt := sig.Results().At(0).Type()
+		ok := app(">", args[0].S, "0")
+		r := s.newRef()
+		c := Val{T: pt, S: s.define("lru", sInt, ite(ok, r, "0"))}
+		errv, _ := s.newErr("lru")
+		return []Val{c, {T: errorT, S: s.define("lruerr", sIface, ite(ok, "nilI", errv.S))}}
+	}
 	registerStrings(e)
+}
+
+// havocObject: every field of the object (recursively through nested struct values) becomes arbitrary.
+func (s *State) havocObject(ref string, t types.Type) {
+	st := t.Underlying().(*types.Struct)
+	for i := 0; i < st.NumFields(); i++ {
+		ft := st.Field(i).Type()
+		fa := &Addr{Space: "fld", Struct: t, Field: i, Ref: ref, T: ft}
+		if kindOf(ft) == kStruct {
+			inner := s.resolve(fa)
+			s.havocObject(inner.Ref, ft)
+			continue
+		}
+		if kindOf(ft) == kArray {
+			continue
+		}
+		s.storeAddr(fa, s.freshVal(ft, "decoded_"+st.Field(i).Name()))
+	}
 }
